@@ -4,6 +4,8 @@ EXTENDS DeploySync
 Sys    == [dep |-> 0, designated |-> FALSE, old |-> FALSE]
 SysOld == [dep |-> 0, designated |-> FALSE, old |-> TRUE]
 Al(i)  == [dep |-> i, designated |-> TRUE, old |-> FALSE]
+NoDev  == {}
+Sticky == {"StickyPending"}
 SpecA  == <<Sys, Al(1)>>
 SpecB  == <<SysOld, Sys, Al(1)>>
 SpecC  == <<Sys, Al(0), Al(1), Al(2)>>
